@@ -164,8 +164,22 @@ def conversion_congruence(L, R, qs):
     return n
 
 
-def lane_polys(L, box, K, name, ell, qs, mps, cpu='accel'):
-    r = box.instantiate(name, K[name], {'ell': ell}, cpu, expand='values')
+def _subst_zero(mp, p, zeros):
+    """the polynomial with every input word of `zeros` (name, off, size) replaced by 0"""
+    if not zeros:
+        return p
+    inv = {a: k for k, a in mp.atoms.items()}
+
+    def dead(a):
+        k = inv[a]
+        if k[0] != 'in':
+            return False
+        return any(k[1] == z[0] and z[1] <= k[2] and k[2] + k[3] <= z[1] + z[2] for z in zeros)
+    return {m: c for m, c in p.items() if not any(dead(a) for a in m)}
+
+
+def lane_polys(L, box, K, name, ell, qs, mps, cpu='accel', zeros=None, run=None):
+    r = run if run is not None else box.instantiate(name, K[name], {'ell': ell}, cpu, expand='values')
     if r.status != 'ok':
         return None, 'call %s' % (r.status,)
     st = final_state(r, ('out',)).get('res', {})
@@ -180,8 +194,8 @@ def lane_polys(L, box, K, name, ell, qs, mps, cpu='accel'):
         ps = mps[k].of_many([roots[o] for o in offs])
         I = getattr(mps[k], 'I', None)
         for o, p in zip(offs, ps):
-            out[o] = p
-            if I is not None and isinstance(roots[o], Sym):
+            out[o] = _subst_zero(mps[k], p, zeros)
+            if I is not None and isinstance(roots[o], Sym) and not zeros:
                 # the stored word is the unsigned lane: the wrap-free reading used by the congruence must be non-negative
                 rg = I.ev_all([roots[o]])[0]
                 if rg is None or rg[0] < 0:
@@ -243,12 +257,43 @@ def products(L, R, qs, tier, ells=None, rename=None):
                 return mp
 
             mps = [mk(k) for k in range(4)]
+            paths = None
             try:
                 pr, err = lane_polys(L, box, K, base + '_ref', ell, qs, mps)
-                pa, err2 = lane_polys(L, box, K, base + '_avx2', ell, qs, mps)
+                # an accelerated kernel that branches on data values is instantiated once per path (KBox): every path is
+                # compared with the reference under the facts of its path condition (words known to be zero)
+                from ..paths import describe, zero_words
+                ra_ = box.instantiate(base + '_avx2', K[base + '_avx2'], {'ell': ell}, 'accel', expand='values')
+                if getattr(ra_, 'paths', None) and len(ra_.paths) > 1:
+                    paths = ra_.paths
+                    pa, err2 = None, None
+                else:
+                    pa, err2 = lane_polys(L, box, K, base + '_avx2', ell, qs, mps, run=ra_)
             except (Unsupported, NeedEnum) as e:
                 R.broke('%s ell=%d: %s' % (base, ell, e))
                 continue
+            if paths is not None:
+                for run_, log in paths:
+                    zs = zero_words(log)
+                    if zs is None:
+                        R.broke('%s ell=%d: path condition not understood (%s)' % (base, ell, describe(log)))
+                        continue
+                    pa_, e2 = lane_polys(L, box, K, base + '_avx2', ell, qs, mps, zeros=zs, run=run_)
+                    if e2:
+                        bad_pair = bad_pair or (ell, 'on the path [%s]: %s' % (describe(log), e2))
+                        continue
+                    for o in sorted(pr):
+                        k = (o // 8) % 4
+                        ncmp += 1
+                        want = _subst_zero(mps[k], pr[o], zs)
+                        if pa_.get(o) != want:
+                            if mps[k].undecided(pa_.get(o, {}), want):
+                                R.broke('%s ell=%d lane at res+%d: contains an operation the congruence rewriting does not model' % (base, ell, o))
+                            else:
+                                bad_pair = bad_pair or (ell, 'on the path where the words %s are zero [%s], lane at res+%d: reference = %s ; '
+                                                        'AVX2 = %s (mod q%d)' % (sorted(zs)[:4], describe(log), o, mps[k].show(want),
+                                                                                 mps[k].show(pa_.get(o, {})), k + 1))
+                pa, err2 = pr, None      # the pairwise loop below has nothing left to compare
             if err or err2:
                 bad_pair = bad_pair or (ell, err or err2)
                 continue
